@@ -60,6 +60,47 @@ def check(run):
                        "a fault on one connection escapes %s and stops servicing the others" % (norm(call), cont, f.qualname))
                 n += 1
     run.floor("C10.R3", 3)
+    # R5 close() puts the connection state machine back to its start: every underlying state variable that connect()/serviceConnect() test
+    # (through self.<x> or through the getter of a property, resolved on the class itself) is stored by close(), directly or through the
+    # setter of a property resolved on the same class.  A subclass that overrides a property (ClientTls.connected -> _connected) does not
+    # inherit the side effect of the parent's setter.
+    for cname in ("Client", "ClientTls"):
+        cls = ix.cls(C, cname)
+
+        def underlying(attr, kind):
+            """state variables behind self.<attr>: through the getter (reads) or setter (stores) resolved on cls, one level"""
+            g = ix.resolve_setter(cls, attr) if kind == "store" else ix.resolve_method(cls, attr)
+            if g is not None and (g.is_property or kind == "store"):
+                out = set()
+                for n in walk_local(g.node):
+                    if isinstance(n, ast.Attribute) and isinstance(n.value, ast.Name) and n.value.id == "self" \
+                            and isinstance(n.ctx, ast.Store if kind == "store" else ast.Load):
+                        out.add(n.attr)
+                return out or {attr}
+            return {attr}
+        tested = set()
+        for mname in ("connect", "serviceConnect"):
+            g = ix.method(cls, mname)
+            for n in walk_local(g.node):
+                if isinstance(n, (ast.If, ast.While)):
+                    for x in ast.walk(n.test):
+                        if isinstance(x, ast.Attribute) and isinstance(x.value, ast.Name) and x.value.id == "self" and x.attr in ("accepted", "connected", "cutoff"):
+                            tested |= underlying(x.attr, "load")
+        close = ix.method(cls, "close")
+        stored = set()
+        for n in walk_local(close.node):
+            if isinstance(n, ast.Assign):
+                for t in n.targets:
+                    if isinstance(t, ast.Attribute) and isinstance(t.value, ast.Name) and t.value.id == "self":
+                        stored |= underlying(t.attr, "store")
+        need = tested - {"cutoff"}
+        for var in sorted(need):
+            ok = var in stored
+            run.ob("C10.R5", "%s:close-resets:%s" % (close.fq, var), ok, run.site(close),
+                   "" if ok else "%s.connect()/serviceConnect() test self.%s, but %s (resolved for %s) never stores it: after a connection is closed "
+                   "(far side ended the handshake) the next service() skips accept() and works on the closed socket (None.do_handshake -> "
+                   "AttributeError out of service())" % (cname, var, close.qualname, cname))
+    run.floor("C10.R5", 3)
     # R4 handlers executable: unbound names in the tcp package service paths
     count = 0
     for modname in (C, S):
@@ -89,6 +130,8 @@ def check(run):
 
 
 MUTANTS = [
+    Mutant("clienttls-close-relies-on-parent-setter", C, "ClientTls.close", "            self.accepted = False\n            self.connected = False", "            self.connected = False", {"C10.R5"}),
+    Mutant("silent-client-close-relies-on-own-setter", C, "Client.close", "            self.accepted = False\n            self.connected = False", "            self.connected = False", silent=True),
     Mutant("clienttls-send-half-renamed-local", C, "ClientTls.send", "            if ex.args[0] in (ssl.SSL_ERROR_WANT_READ, ssl.SSL_ERROR_WANT_WRITE):\n                result = 0", "            if ex.args[0] in (ssl.SSL_ERROR_WANT_READ, ssl.SSL_ERROR_WANT_WRITE):\n                count = 0", {"C10.R4"}),
     Mutant("remoter-drop-econnreset", S, "Remoter.receive", "elif ex.args[0] in (errno.ECONNRESET,\n", "elif ex.args[0] in (\n", {"C10.R1"}, canary=True),
     Mutant("client-cutoff-raises", C, "Client.send", "                self.cutoff = True  # this signals need to close/reopen connection\n                count = 0",
